@@ -14,6 +14,7 @@ from __future__ import annotations
 import hashlib
 import json
 import os
+import signal
 import sys
 import time
 
@@ -42,6 +43,33 @@ class CaseResult:
         self.violations.append((key, case, what))
 
 
+class CaseTimeout(BaseException):
+    pass
+
+
+def _alarm(signum, frame):
+    raise CaseTimeout()
+
+
+def _eval_with_timeout(mod, case, seconds):
+    """A case that does not finish within `seconds` (compiler or machine looping) is counted as a rejection
+    'timeout' and listed in the evidence; it is never silently dropped and never a violation by itself
+    unless the check module turns it into one (mod.on_timeout)."""
+    signal.signal(signal.SIGALRM, _alarm)
+    signal.alarm(int(seconds))
+    try:
+        return mod.evaluate(case)
+    except CaseTimeout:
+        r = CaseResult()
+        r.rejected = "timeout"
+        r.counters["timeout"] = 1
+        if hasattr(mod, "on_timeout"):
+            mod.on_timeout(r, case)
+        return r
+    finally:
+        signal.alarm(0)
+
+
 def _h(x):
     return hashlib.blake2b(repr(x).encode(), digest_size=8).digest()
 
@@ -56,6 +84,7 @@ def run_check(mod, tier: str, seed: int, cap_s: float | None = None):
     cap = cap_s if cap_s is not None else float(os.environ.get("VERIF_CAP_S", "0") or 0) or None
     sample_idx = set(_sample_indices(n))
     known_keys = set(findings.load_known(pid))
+    case_timeout = getattr(mod, "CASE_TIMEOUT", 60)
 
     def work(shard, nshards):
         obs, viol, counters, samples, rej = set(), {}, {}, [], {}
@@ -70,7 +99,7 @@ def run_check(mod, tier: str, seed: int, cap_s: float | None = None):
             if cap and time.time() - t0 > cap:
                 capped_at = i
                 break
-            r = mod.evaluate(cases[i])
+            r = _eval_with_timeout(mod, cases[i], case_timeout)
             evaluated += 1
             states += r.states
             transitions += r.transitions
